@@ -1037,6 +1037,7 @@ def r11_6(ctx):
 
 @rule("C01", "R01.5", floor=1)
 def r01_5(ctx):
+    """no source line is lost around a directive: the line that ended it is re-queued and processed next (= C16 R16.4)"""
     import rules_text
     rules_text.r16_4(ctx)
 
@@ -1354,3 +1355,19 @@ def r01_8(ctx):
     separator placement independent of the accumulated text)"""
     import rules_text
     rules_text.r12_3(ctx)
+
+
+@rule("C14", "R14.7", floor=4)
+def r14_7(ctx):
+    """stored tag content is substituted with its line endings normalised: replace_line_ending / inject_tags assemble their result only
+    from lines() items, slices of the line and the line_ending value (= C12 R12.3)"""
+    import rules_text
+    rules_text.r12_3(ctx)
+
+
+@rule("C15", "R15.6", floor=3)
+def r15_6(ctx):
+    """the grammar functions see the source line itself: detect_from / add_line are applied to the unmodified line read from the file
+    (a trimmed or otherwise edited line changes which whitespace-only lines continue a directive) (= C16 R16.1)"""
+    import rules_text
+    rules_text.r16_1(ctx)
